@@ -708,6 +708,16 @@ def std_oracle(interp, env, f, args, t, bb, path):
         if isinstance(v, Sym) and "deref" in v.fields:
             return v.fields["deref"]
         return a0
+    if key.startswith("eyre::WrapErr::") or key.startswith("color_eyre::section::Section::") or key.startswith("color_eyre::Section::"):
+        v = deref(a0)
+        if isinstance(v, Agg) and v.name == "core::result::Result":
+            return v
+        return TOP
+    if key.startswith("eyre::ContextCompat::"):
+        v = deref(a0)
+        if isinstance(v, Agg) and v.name == "core::option::Option":
+            return ok(v.fields[0]) if v.variant == "Some" else err(TOP)
+        return TOP
     if key in ("core::option::Option::as_ref", "core::option::Option::as_mut", "core::option::Option::as_deref", "core::option::Option::as_deref_mut"):
         return deref(a0)
     if key in ("core::convert::Into::into", "core::convert::From::from") and (f.get("gargs") or [None, None])[0] == (f.get("gargs") or [None, None])[-1]:
